@@ -273,6 +273,11 @@ impl<'tcx> Dumper<'tcx> {
                         let tr = tr.instantiate_identity().skip_normalization();
                         o.set("trait", J::s(&tcx.def_path_str(tr.def_id)));
                         o.set("trait_ref", J::s(&format!("{}", tr)));
+                        // a crate-local trait: where it is written and who may name it (a private helper trait vs an API trait)
+                        if tr.def_id.is_local() {
+                            o.set("trait_vis", J::s(&format!("{:?}", tcx.visibility(tr.def_id))));
+                            o.set("trait_loc", self.loc(tcx.def_span(tr.def_id)));
+                        }
                     }
                 } else if matches!(tcx.def_kind(parent), DefKind::Trait) {
                     o.set("in_trait", J::s(&tcx.def_path_str(parent)));
